@@ -378,11 +378,25 @@ Fixpoint bracket_groups (s : str) : list str :=
   | c :: r => if c =? 91 then (let '(inner, _, _) := partition 93 r in inner) :: bracket_groups r else bracket_groups r
   end.
 
-(** F17: some input text has a bracketed host that the address parser does not accept as IPv6 *)
+(** F17: in some input text - read as a URL (the authority of its RFC decomposition) or as an
+    authority - the host part (after the last '@') carries brackets but is not
+    "[" IPv6-address [ "%" zone ] "]" [ ":" port ]: an IPvFuture literal, text the address
+    parser rejects (such as digits that only the IDNA mapping turns into ASCII), a '@' or
+    other garbage around the brackets *)
+Definition hostport_of (nl : str) : str := let '(_, _, hp) := rpartition 64 nl in hp.
+Definition bad_bracket_host (ip_parse : str -> option (N * str)) (hp : str) : bool :=
+  (mem 91 hp || mem 93 hp) &&
+  negb (match hp with
+        | 91 :: r =>
+            let '(inner, found, after) := partition 93 r in
+            let '(addr, _, _) := partition 37 inner in
+            found && (match ip_parse addr with Some (6, _) => true | _ => false end)
+            && (match after with [] => true | 58 :: _ => true | _ => false end)
+        | _ => false
+        end).
 Definition f17_input (ip_parse : str -> option (N * str)) (prog : val) : bool :=
-  existsb (fun s => existsb (fun g => let '(addr, _, _) := partition 37 g in
-                                      match ip_parse addr with Some (6, _) => false | _ => true end)
-                            (bracket_groups s))
+  existsb (fun s => let '(_, nl, _, _, _) := rfc_split (spec_clean s) in
+                    bad_bracket_host ip_parse (hostport_of nl) || bad_bracket_host ip_parse (hostport_of s))
           (val_strings prog).
 
 (** F30: some input text contains a lone surrogate *)
